@@ -98,7 +98,7 @@ def gridQueryR (g : GridSpec) (kind : String) (i : Nat) : List String :=
     let pre := "qr " ++ kind ++ " " ++ toString i
     if kind == "rc" then
       [line pre (" ".intercalate (idx.map (fun j => toString (j / r.cols) ++ " " ++ toString (j - (j / r.cols) * r.cols))))]
-    else if kind == "rs" then
+    else if kind == "rs" || kind == "rso" then
       [line pre (" ".intercalate ((idx.zip dist).map (fun p =>
           toString p.1 ++ " " ++ toString (p.1 / r.cols) ++ " " ++ toString (p.1 - (p.1 / r.cols) * r.cols) ++ " " ++
           fHex p.2 ++ " " ++ toString (st.getD p.1 0))))]
